@@ -1,6 +1,10 @@
 from ..framework import Spec
 from ..ties_cond import resolve_tie, file_tie
+from ..ties_sys import scenario_tie
+from ..scenarios import gen_cond_scenario
 
 # definition order (a line is substituted against exactly the symbols defined before it) is observed at file level
-SPEC = Spec(pid='C09', coq_needs=['Base', 'Subst', 'SubstProofs', 'Cond', 'CondEval', 'Properties/C09'],
-            ties=[resolve_tie(), file_tie()])
+SPEC = Spec(pid='C09', coq_needs=['Base', 'Subst', 'SubstProofs', 'Cond', 'CondEval', 'Program', 'Properties/C09'],
+            ties=[resolve_tie(), file_tie(),
+                  # symbols from all three sources (ISA file incl. null values, command line, #define) used by whole programs
+                  scenario_tie('cond_programs', gen_cond_scenario, 150, 3000)])
